@@ -200,7 +200,7 @@ def run(ctx):
         for kind, what in r["problems"]:
             by.setdefault(("make_all_operators", COMMON_MOD, kind), []).append((what, None, dict(D=D)))
     jobs = []
-    shapes = {1: [(3,), (1,), (4,)], 2: [(2, 3), (3, 3), (1, 4), (4, 2)], 3: [(2, 3, 4), (3, 3, 3), (1, 2, 3), (2, 2, 3)]}
+    shapes = {1: [(3,), (1,), (4,)], 2: [(2, 3), (3, 3), (1, 4), (4, 2)], 3: [(2, 3, 4), (3, 3, 3), (1, 2, 3), (2, 2, 3), (2, 3, 2), (3, 1, 3)]}
     if ctx.thorough():
         shapes[2] += [(a, b) for a in range(1, 6) for b in range(1, 6) if (a, b) not in shapes[2]]
         shapes[3] += [(4, 3, 2), (1, 1, 5), (2, 5, 3), (3, 1, 3)]
@@ -214,7 +214,7 @@ def run(ctx):
                     gsel = range(len(G))
                     if not ctx.thorough():
                         if D == 3:
-                            if si > 0 or k > 2:
+                            if (si > 0 and k > 0) or k > 2:
                                 continue
                             if k == 2 and p == 1:
                                 continue
